@@ -25,7 +25,16 @@ def _on_alarm(*_):
     if _strikes[0] >= 2:
         os._exit(3)
     signal.alarm(20)
-    raise sim.Stuck('wall-clock', 'the case was still running after %s s of wall-clock time' % os.environ.get('VERIF_CASE_WALL', '120'))
+    msg = 'the case was still running after %s s of wall-clock time' % os.environ.get('VERIF_CASE_WALL', '120')
+    if sim.S is not None:
+        # like a run the scheduler found stuck: every simulated thread unwinds at its next primitive operation
+        try:
+            msg += '; ' + sim.S.describe()[:600]
+        except Exception:
+            pass
+        sim.S.stuck = ('wall-clock', msg)
+        sim.S.abort = True
+    raise sim.Stuck('wall-clock', msg)
 
 
 def _init():
@@ -41,22 +50,40 @@ def run_all(scenarios, procs=None, chunksize=4):
         return [_one_local(s) for s in scenarios]
     ctx = mp.get_context('fork')
     out = [None] * len(scenarios)
+    wall = int(os.environ.get('VERIF_CASE_WALL', '120'))
+    many = int(os.environ.get('VERIF_MANY_HANGS', '40'))
+    n_stuck = 0
     with ctx.Pool(procs, initializer=_init, maxtasksperchild=200) as pool:
         hs = [pool.apply_async(_one, (sc,)) for sc in scenarios]
         for i, h in enumerate(hs):
+            if n_stuck >= many:
+                # the tree under test hangs all over the place: that is established; the rest of the batch is not waited for
+                if h.ready():
+                    try:
+                        out[i] = h.get(0)
+                    except Exception as e:  # noqa
+                        out[i] = {'harness_error': 'case did not finish: ' + repr(e), 'ops': [], 'calls': []}
+                else:
+                    out[i] = {'harness_error': 'skipped: more than %d runs of this batch ended stuck' % many, 'ops': [], 'calls': []}
+                continue
             try:
-                out[i] = h.get(int(os.environ.get('VERIF_CASE_WALL', '120')) * 2 + 60)
+                out[i] = h.get(wall + 45)
             except Exception as e:  # a crashed/timed-out harness process: infrastructure, not a verdict
                 out[i] = {'harness_error': 'case did not finish: ' + repr(e), 'ops': [], 'calls': []}
+            if out[i].get('stuck'):
+                n_stuck += 1
+        if n_stuck >= many:
+            pool.terminate()
     # a run that ended stuck is repeated once in a process of its own (DetSim is deterministic per scenario: a genuine hang
-    # reproduces; one that does not was disturbed by an earlier run in the same harness process and is counted, not reported)
+    # reproduces; one that does not was disturbed by an earlier run in the same harness process and is counted, not reported).
+    # When a whole batch is riddled with hangs there is nothing to confirm.
     again = [i for i, o in enumerate(out) if o and o.get('stuck')]
-    if again:
+    if again and len(again) <= 12:
         with ctx.Pool(min(procs, len(again)), initializer=_init, maxtasksperchild=1) as pool:
             hs = [(i, pool.apply_async(_one, (scenarios[i],))) for i in again]
             for i, h in hs:
                 try:
-                    o2 = h.get(int(os.environ.get('VERIF_CASE_WALL', '120')) * 2 + 60)
+                    o2 = h.get(wall + 45)
                 except Exception:
                     continue
                 if not o2.get('stuck'):
